@@ -76,7 +76,8 @@ pub(super) fn block_string_value(raw: &str) -> String {
                 .copied()
                 .chain(line.chars())
         })
-        .collect()
+        .collect::<String>()
+        .replace("\\\"\"\"", "\"\"\"")
 }
 
 #[test]
